@@ -72,6 +72,10 @@ var kindGroups = [][]string{
 	{"panic-unexpected", "trap-unexpected", "assert-fail", "assert-fail-msg"},
 }
 
+var passKinds = []string{"panic-expected-match", "panic-expected-match-after-print", "output-match", "silent-pass", "assert-pass"}
+var failKinds = []string{"panic-expected-longer-message", "panic-expected-wrong", "panic-expected-absent", "trap-expected-panic",
+	"output-wrong-line", "output-extra-line", "output-missing-line", "panic-unexpected", "trap-unexpected", "assert-fail", "assert-fail-msg"}
+
 // excluded lists kinds switched off because they hit a listed known finding.
 func excluded(kind string) (string, bool) {
 	for key, kinds := range map[string][]string{
@@ -206,8 +210,20 @@ func genPackage(t *rapid.T, s *core.Stats) kase {
 	var funcs []fnModel
 	var chunks []string
 	seen := map[string]bool{}
+	shape := rapid.SampledFrom([]string{"one-failing", "all-pass", "mix", "one-failing"}).Draw(t, "shape")
+	failIdx := rapid.IntRange(0, nf-1).Draw(t, "failIdx")
 	for i := 0; i < nf; i++ {
-		kind := rapid.SampledFrom(rapid.SampledFrom(kindGroups).Draw(t, "group")).Draw(t, "kind")
+		// Package shape: a package-level verdict hides all but one failing function,
+		// so most packages have no or exactly one function that breaks its contract.
+		var kind string
+		switch {
+		case shape == "mix":
+			kind = rapid.SampledFrom(rapid.SampledFrom(kindGroups).Draw(t, "group")).Draw(t, "kind")
+		case shape == "one-failing" && i == failIdx:
+			kind = rapid.SampledFrom(failKinds).Draw(t, "failkind")
+		default:
+			kind = rapid.SampledFrom(passKinds).Draw(t, "passkind")
+		}
 		if key, ex := excluded(kind); ex {
 			s.Counter("excluded_by_known/"+key, 1)
 			kind = "silent-pass"
@@ -473,6 +489,7 @@ func TestVerdicts(t *testing.T) {
 		}
 		c.Class(fmt.Sprintf("want-pass=%v", k.WantPass))
 		c.Class("pkgpath/" + k.Pkg)
+		c.Class(fmt.Sprintf("selected-failing=%d", min(nfail, 2)))
 		switch {
 		case k.Run == "":
 			c.Class("run/none")
